@@ -346,7 +346,7 @@ FLUSH_FNS = {
     "futures_util::io::AsyncWriteExt::close": "close",
 }
 SEEK_FNS = {"std::io::Seek::seek": "seek", "futures_util::io::AsyncSeekExt::seek": "seek", "std::io::Seek::rewind": "rewind"}
-POS_FNS = {"std::io::Seek::stream_position": "pos", "futures_util::io::AsyncSeekExt::stream_position": "pos"}
+POS_FNS = {"std::io::Seek::stream_position": "pos", "futures_util::io::AsyncSeekExt::stream_position": "pos", "std::io::cursor::Cursor::<T>::position": "pos"}
 SEEKFROM_START = ("std::io::SeekFrom::Start",)
 SEEKFROM_CURRENT = ("std::io::SeekFrom::Current",)
 SEEKFROM_END = ("std::io::SeekFrom::End",)
@@ -1833,6 +1833,22 @@ class FnAnalysis:
                 t = ("cast", e["ty"], vals[0], tys[0])
                 self.ev(st, "cast", e, frm=tys[0], to=e["ty"], v=vals[0], lossless=True)
                 return t
+        # `s.chunks_exact(n).chain(once(<that iterator>.remainder()))` yields the chunks of `s.chunks(n)` in order, followed by one EMPTY slice when
+        # n divides the length: the same leaves, plus possibly an empty tail.  It gets a name of its own (its elements, unlike those of `chunks`,
+        # may be empty) under which the rules that reason about the chunking of the entry list recognise it.
+        if fn == "core::iter::traits::iterator::Iterator::chain" and len(vals) == 2:
+            a0, a1 = _strip_mut(vals[0]), _strip_mut(vals[1])
+            if isinstance(a0, tuple) and a0 and a0[0] == "call" and a0[1].endswith("::chunks_exact") and len(a0[2]) == 2 and \
+                    isinstance(a1, tuple) and a1 and a1[0] == "call" and a1[1] == "core::iter::sources::once::once" and len(a1[2]) == 1:
+                rm = _strip_mut(a1[2][0])
+                if isinstance(rm, tuple) and rm and rm[0] == "call" and rm[1].endswith("ChunksExact::<'a, T>::remainder") and len(rm[2]) == 1:
+                    src = _strip_mut(rm[2][0])
+                    if isinstance(src, tuple) and src[:3] == a0[:3]:
+                        cfn = "core::slice::<impl [T]>::chunks_then_tail"
+                        t = ("call", cfn, a0[2], None)
+                        self.ev(st, "call", e, fn=cfn, args=tuple(a0[2]), arg_nodes=arg_nodes, recv=recv_node, ret=t, effects=(), uid=None, tys=tys,
+                                argkeys=[frozenset() for _ in arg_nodes], pos_before={}, pos_after={}, direct=None, targs=e.get("targs"), resolved=e.get("resolved"))
+                        return t
         # checked / saturating / wrapping arithmetic: the operator on the abstract value
         if name in ARITH_METHODS and len(vals) == 2 and fn.startswith("core::num::"):
             op, flavour = ARITH_METHODS[name]
